@@ -636,6 +636,18 @@ def leg_integrate(ctx, P, spec, rng, force=None):
                              f"{spec['cls']}: integrate(1, axes) is not the measure of the selected axes",
                              key={"grid_class": spec["cls"], "leg": "integrate"})
 
+        # ... and the same for constant-one data with a leading component axis (vector data): every component gets the measure
+        ctx.monitor_evals += 1
+        try:
+            onev = np.asarray(g.integrate(np.ones((2,) + tuple(spec["shape"])), **kwargs), dtype=float)
+        except Exception as e:  # noqa: BLE001
+            onev = f"raised {type(e).__name__}: {e}"[:200]
+        if isinstance(onev, str) or onev.shape != (2,) + ret_shape or far(onev, meas, TOL_SUM * msc):
+            ctx.monitor_fail("integrate", case, {"integrate(ones with component axis)": onev if isinstance(onev, str) else onev.tolist()},
+                             {"measure": meas, "shape": [2] + list(ret_shape)},
+                             f"{spec['cls']}: integrate(1, axes) of data with a component axis is not the measure of the selected axes",
+                             key={"grid_class": spec["cls"], "leg": "integrate", "data": "component axis"})
+
         def cont(resp, case=case, res=res, ret_shape=ret_shape, msc=msc):
             m = expect_ok(ctx, resp, "integrate", case)
             if m is None:
